@@ -1,20 +1,26 @@
 """C19 — `tt convert` equals the library pipeline, honours options, is deterministic.
 
-Theorems (coq/Properties/C19.v) are about M = Model/Cli.v `plan` (type inference, precedence, filter order,
-no output on error, per-key acceptance against the README table Spec/CliSpec.v `documented`).
+Theorems (coq/Properties/C19.v) are about M = Model/Cli.v: parse_main (argparse on the raw tokens), convert / plan
+(the conversion plan), run_convert / run_tokens (the run with arbitrary readers / filters / writers and its log of
+effects), judged by S = Spec/CliSpec.v (command-line grammar, README acceptance table and meanings, spec_plan,
+lib_pipeline, plan_events).
 
 Ties, every run:
- 1. tables regenerated from the source (harness/gen_c19.py -> Gen/CliUnicode.v, Gen/CliTables.v) and compared
+ 1. tables regenerated from the source (harness/gen_c19.py -> Gen/CliUnicode.v, Gen/CliTables.v, Gen/CliShape.v: enum,
+    registry, dataclass fields + decoder names + defaults, argparse declarations, the AST of tt.convert) and compared
     with the hand transcription by vm_compute (Proofs/C19/Tables.v), including every decoder on a fixed probe set;
- 2. generated command lines (5 input x 3 output formats, type-inference variants, every documented key with
-    valid / boundary / invalid values, inline vs file configuration, filter lists, unknown sub-commands):
+ 2. generated RAW command lines (5 input x 3 output formats, options shuffled and repeated, both spellings, type-inference
+    variants, every documented key with valid / boundary / near-miss values, inline vs file configuration, filter lists,
+    malformed input documents, token lists outside the grammar, unknown sub-commands):
       a. the real CLI in a fresh process per command line (exit status, stderr class, output bytes);
-      b. the plan *observed* by running the real ttconv.tt.main in-process with readers, filters and writers
-         replaced by recorders (no edit of /repo) — compared inside Coq with M's plan;
+      b. the run *observed* by running the real ttconv.tt.main in-process with readers, filters, writers and open
+         replaced by recorders (no edit of /repo) that log every effect in order — compared inside Coq with M's
+         run_tokens (log and end); a sample again with one reader / filter / writer call raising;
       c. the observed plan executed through the library API (configuration objects built by their constructors)
          — bytes compared with the CLI's output file (or both fail and no file exists);
-      d. S (Spec/CliSpec.v spec_case) evaluated inside Coq on what the code did;
- 3. random decoder probes and random paths for splitext/get_file_type, M = code and S on the code's answer;
+      d. S (Spec/CliSpec.v spec_case, spec_plan, no output event on an error path) evaluated inside Coq on what the code did;
+ 3. random decoder probes and random paths for splitext/get_file_type, M = code and S on the code's answer
+    (acceptance and decoded meaning);
  4. determinism (differential execution, not proof): same command under other PYTHONHASHSEEDs, with progress
     bar / log level toggled, and inside one interpreter after k other conversions in random order — byte-identical.
 """
@@ -23,7 +29,7 @@ from concurrent.futures import ProcessPoolExecutor, ThreadPoolExecutor
 import common as C
 import gen_tables, gen_c19 as G
 
-FINDINGS = {1: "bool-decoders-accept-anything", 2: "undocumented-values-accepted", 4: "documented-values-rejected"}
+FINDINGS = {2: "undocumented-values-accepted", 4: "documented-values-rejected"}
 CLI = "import sys; from ttconv.tt import main; sys.exit(main())"
 EXT = {"ttml": "ttml", "scc": "scc", "stl": "stl", "srt": "srt", "vtt": "vtt"}
 
@@ -76,6 +82,15 @@ def corpus(rng):
         for k in range(rng.randrange(1, 4)):
             lines += ["00:00:%02d:00\t%s" % (t, rng.choice(tc)), "", "00:00:%02d:00\t942c 942c" % (t + 2), ""]; t += 4
         docs["scc"].append((f"generated-{n}.scc", "\n".join(lines).encode("ascii")))
+    # documents a reader rejects: the conversion must fail and leave no output file behind
+    docs["bad"] = {
+        "ttml": [("bad-0.ttml", b"<tt xmlns='http://www.w3.org/ns/ttml'><body><div><p>unclosed</div></body></tt>"), ("bad-1.ttml", b""),
+                 ("bad-2.ttml", b"<?xml version='1.0'?><notatt/>")],
+        "scc": [("bad-0.scc", b"Scenarist_SCC V1.0\n\n00:00:00:00\tzzzz 9420\n"), ("bad-1.scc", b"Scenarist_SCC V1.0\n\nnot a time code\t9420 9420\n")],
+        "stl": [("bad-0.stl", b"\x00" * 100), ("bad-1.stl", b"850STL25.01" + b" " * 500)],
+        "srt": [("bad-0.srt", b"1\n00:00:01,000 -> 00:00:02,000\nnot an arrow\n"), ("bad-1.srt", b"\xff\xfe\x00bad bytes")],
+        "vtt": [("bad-0.vtt", b"\xff\xfe\x00bad bytes")],
+    }
     return docs
 
 
@@ -84,17 +99,18 @@ VALID = {
     ("general", "log_level"): ["INFO", "WARN", "ERROR"], ("general", "progress_bar"): [True, False],
     ("general", "document_lang"): ["en", "es-419", "fr-CA", "zh-Hant-TW"],
     ("imsc_writer", "time_format"): ["frames", "clock_time", "clock_time_with_frames"],
-    ("imsc_writer", "fps"): ["25/1", "30000/1001", "24000/1001", "30/1", "50/2"],
+    ("imsc_writer", "fps"): ["25/1", "30000/1001", "24000/1001", "30/1", "50/2", "1/1", "120/1", "60000/1001", "025/01"],
     ("scc_reader", "text_align"): ["auto", "left", "center", "right"],
     ("stl_reader", "disable_fill_line_gap"): [True, False], ("stl_reader", "disable_line_padding"): [True, False],
-    ("stl_reader", "program_start_tc"): ["TCP", "00:00:00:00", "10:00:00:00", "00:00:01:00"],
-    ("stl_reader", "font_stack"): ["Arial", "Verdana, Arial, Tiresias, sansSerif", "monospace", '"Some Font", default', "'x y'"],
-    ("stl_reader", "max_row_count"): ["MNR", 23, 11, 1, 99, 0],
+    ("stl_reader", "program_start_tc"): ["TCP", "00:00:00:00", "10:00:00:00", "00:00:01:00", "23:59:59:24"],
+    ("stl_reader", "font_stack"): ["Arial", "Verdana, Arial, Tiresias, sansSerif", "monospace", '"Some Font", default', "'x y'", "a", "x, y"],
+    ("stl_reader", "max_row_count"): ["MNR", 23, 11, 1, 99, 0, -1, 2 ** 40],
     ("srt_writer", "text_formatting"): [True, False],
     ("vtt_writer", "line_position"): [True, False], ("vtt_writer", "text_align"): [True, False], ("vtt_writer", "cue_id"): [True, False],
     ("lcd", "safe_area"): [0, 1, 5, 10, 29, 30], ("lcd", "preserve_text_align"): [True, False],
-    ("lcd", "color"): ["red", "#FFFFFF", "#00ff0080", "rgb(1,2,3)", "rgba(255,255,0,128)", None],
-    ("lcd", "bg_color"): ["transparent", "black", "#FF0000", "rgb(0,0,255)", None],
+    ("lcd", "color"): ["red", "#FFFFFF", "#00ff0080", "rgb(1,2,3)", "rgba(255,255,0,128)", None, "#000000", "#ffffffff", "rgb(0,0,0)", "rgb(255,255,255)",
+                       "rgba(0,0,0,0)", "rgb(007,08,9)", "cyan"],
+    ("lcd", "bg_color"): ["transparent", "black", "#FF0000", "rgb(0,0,255)", None, "#00000000", "rgba(255,255,255,255)", "aqua"],
 }
 SECTION_OF = {"scc": "scc_reader", "stl": "stl_reader"}
 WSECTION_OF = {"ttml": "imsc_writer", "srt": "srt_writer", "vtt": "vtt_writer"}
@@ -118,12 +134,25 @@ def mutate(rng, s):
     return s.swapcase()
 
 
+NEAR = {
+    "KSafeArea": [-1, 31, 30.0, "30", True, 10.5, None], "KFps": ["0/1", "25/0", "-25/1", "25/1 ", "25", "25/1/1", "٢٥/1", "2_5/1"],
+    "KColor": ["rgb(256,0,0)", "rgba(0,0,0,256)", "#FF0000zz", "#FF000", "rgb(1,2,3) ", "rgb(1,2,3)x", "RED", "rgb( 1,2,3)", "rgb(١,2,3)", "#ff00000"],
+    "KBgColor": ["rgb(256,0,0)", "#GG0000", "rgba(1,2,3)", "Transparent", "rgba(1 ,2,3,4)"],
+    "KStartTc": ["10:00:00:00x", "10:00:00:0", "tcp", "10;00;00;00", "10:00:00:00\n"], "KMaxRowCount": [True, False, "mnr", 23.0, "23"],
+    "KSccTextAlign": ["LEFT", "Auto", "start", ""], "KTimeFormat": ["Frames", "clock", ""], "KLogLevel": ["DEBUG", "info", 20, "WARNING"],
+    "KDocumentLang": ["not a tag", "", "en_US"], "KFontStack": ["", ",", "'", "a,,b", " "],
+}
+for _k in ("KProgressBar", "KFillLineGap", "KLinePadding", "KTextFormatting", "KLinePosition", "KVttTextAlign", "KCueId", "KPreserveTextAlign"):
+    NEAR[_k] = ["true", "false", 0, 1, None, "no", [], 1.0]
+
+
 def random_value(rng, sec, key):
     """(value, expected to be documented?) — mostly valid, boundary and invalid values of the right shape"""
     Kc = G.KEYS[(sec, key)]
     r = rng.random()
-    if r < .72: return rng.choice(VALID[(sec, key)])
-    if r < .86:
+    if r < .70: return rng.choice(VALID[(sec, key)])
+    if r < .78: return rng.choice(NEAR[Kc])
+    if r < .88:
         pool = G.probe_values(Kc)
         v = rng.choice(pool)
         if isinstance(v, str) and len(v) > 300: v = rng.choice(VALID[(sec, key)])   # keep command lines short
@@ -224,7 +253,9 @@ def gen_cases(rng, n, docs):
     for idx in range(n):
         fin, fout = pairs[idx % len(pairs)] if idx < 3 * len(pairs) or rng.random() < .8 else (rng.choice(fmts_in), rng.choice(fmts_out))
         label, data = rng.choice(docs[fin])
-        c = dict(idx=idx, sub="convert", fin=fin, fout=fout, doc=label, data=data, filters=[], inline=None, file=None, itype=None, otype=None)
+        bad_input = idx >= len(pairs) and rng.random() < .07
+        if bad_input: label, data = rng.choice(docs["bad"][fin])
+        c = dict(idx=idx, sub="convert", fin=fin, fout=fout, doc=label, data=data, filters=[], inline=None, file=None, itype=None, otype=None, bad_input=bad_input)
         iext, c["itype"] = type_variant(rng, fin)
         oext, c["otype"] = type_variant(rng, fout)
         c["input"] = "in/" + stem() + iext
@@ -285,14 +316,91 @@ def argv_of(c):
     return a
 
 
+FLAGS = {"input": ["-i", "--input"], "output": ["-o", "--output"], "itype": ["--itype"], "otype": ["--otype"], "filter": ["--filter"],
+         "config": ["--config"], "config_file": ["--config_file"]}
+
+
+def raw_argv(rng, c):
+    """the command line as raw tokens: options in random order, written `flag value` or `flag=value`, short or long
+    flags, repeated options whose earlier values must lose; sometimes outside the grammar (c["odd"]).
+    Sets c["configs"] (every --config string, the effective one last) and c["cfgfiles"] ((path, content spec))."""
+    c["configs"] = []; c["cfgfiles"] = []; c["odd"] = None; c["decoys"] = []
+    if c["sub"] is None: return []
+    groups = {k: [] for k in FLAGS}
+    groups["input"].append(c["input"]); groups["output"].append(c["output"])
+    if c["itype"] is not None: groups["itype"].append(c["itype"])
+    if c["otype"] is not None: groups["otype"].append(c["otype"])
+    groups["filter"] = list(c["filters"])
+    if c["inline"] is not None: groups["config"].append(c["inline"])
+    if c["file"] is not None: groups["config_file"].append("cfg/config.json"); c["cfgfiles"].append(("cfg/config.json", c["file"]))
+    # earlier values of repeated options: everything about them must be ignored
+    if rng.random() < .35:
+        for _ in range(rng.randrange(1, 4)):
+            dest = rng.choice([k for k in ("input", "output", "itype", "otype", "config", "config_file") if groups[k]])
+            if dest == "input": v = rng.choice(["in/decoy.ttml", "in/missing.scc", ""])
+            elif dest == "output": v = rng.choice(["out/decoy.srt", "out/decoy.ttml", "out/decoy.vtt"])
+            elif dest in ("itype", "otype"): v = rng.choice(["scc", "SRT", "vtt", "xyz", "ttml", "stl"])
+            elif dest == "config": v = rng.choice(['{"general": {"document_lang": "xx-decoy"}, "lcd": {"safe_area": 99}}', '{"broken', '[]',
+                                                   '{"srt_writer": {"text_formatting": false}, "vtt_writer": {"cue_id": false}, "imsc_writer": {"fps": "60/1", "time_format": "frames"}}'])
+            else:
+                v = rng.choice(["cfg/decoy.json", "cfg/missing.json"])
+                if v == "cfg/decoy.json" and not any(p == v for p, _ in c["cfgfiles"]):
+                    c["cfgfiles"].append((v, ("text", rng.choice(['{"general": {"document_lang": "xx-decoy"}}', "not json", '{"lcd": {"safe_area": 1}}']))))
+                elif v == "cfg/missing.json" and not any(p == v for p, _ in c["cfgfiles"]):
+                    c["cfgfiles"].append((v, ("missing", None)))
+            groups[dest].insert(0, v); c["decoys"].append((dest, v))
+    c["configs"] = list(groups["config"])
+    # a random interleaving that keeps the order inside each option
+    queues = {k: list(v) for k, v in groups.items() if v}
+    items = []
+    while queues:
+        k = rng.choice(sorted(queues)); items.append((k, queues[k].pop(0)))
+        if not queues[k]: del queues[k]
+    toks = []
+    for dest, v in items:
+        flag = rng.choice(FLAGS[dest])
+        if v.startswith("-") or rng.random() < .4: toks.append(flag + "=" + v)
+        else: toks += [flag, v]
+    # outside the grammar
+    if rng.random() < .10:
+        k = rng.randrange(9); c["odd"] = k
+        pos = rng.randrange(len(toks) + 1)
+        def cut(dest):
+            out = []; i = 0
+            while i < len(toks):
+                t = toks[i]
+                if t in FLAGS[dest]: i += 2; continue
+                if any(t.startswith(f + "=") for f in FLAGS[dest]): i += 1; continue
+                out.append(t); i += 1
+            return out
+        if k == 0: toks = cut("input")
+        elif k == 1: toks = cut("output")
+        elif k == 2: toks = toks + [rng.choice(["--itype", "--filter", "--config", "-o"])]
+        elif k == 3:
+            # a stray word between two options (never between a flag and its value)
+            starts = [i for i, t in enumerate(toks) if t.startswith("-")] + [len(toks)]
+            toks.insert(rng.choice(starts), rng.choice(["extra.txt", "convert", "lcd"]))
+        elif k == 4:
+            starts = [i for i, t in enumerate(toks) if t.startswith("-")] + [len(toks)]
+            toks.insert(rng.choice(starts), rng.choice(["--zzz", "--zzz=1", "-x", "--verbose", "-q=1"]))
+        elif k == 5:
+            starts = [i for i, t in enumerate(toks) if t.startswith("-")] + [len(toks)]
+            toks.insert(rng.choice(starts), rng.choice(["-h", "--help"]))
+        elif k == 6: toks = [rng.choice(["--otype", "--itype"]), rng.choice(["--filter", "-i", "--help"])] + toks
+        elif k == 7: toks = toks + ["--help=1"]
+        else: toks = [t for t in toks if t not in ("-i", "--input")][:]     # -i loses its flag: its value becomes a stray word
+    return [c["sub"]] + toks
+
+
 def materialise(c, root):
     """create the case directory: the input document under its name, the configuration file"""
     d = f"{root}/{c['idx']}"
     os.makedirs(d + "/out", exist_ok=True); os.makedirs(d + "/cfg", exist_ok=True)
     p = d + "/" + c["input"]; os.makedirs(os.path.dirname(p), exist_ok=True)
     with open(p, "wb") as f: f.write(c["data"])
-    if c["file"] is not None and c["file"][0] == "text":
-        with open(d + "/cfg/config.json", "w", encoding="utf-8") as f: f.write(c["file"][1])
+    for path, spec in c.get("cfgfiles", []):
+        if spec[0] == "text":
+            with open(d + "/" + path, "w", encoding="utf-8") as f: f.write(spec[1])
     return d
 
 
@@ -334,80 +442,162 @@ def run_cli(job):
     return rc, classify_stderr(rc, err), data, err[-300:]
 
 
-# ---------------------------------------------------------------------------------------------- observation of the plan
+# ---------------------------------------------------------------------------------------------- observation of the run
+class Injected(RuntimeError):
+    pass
+
+
 def _obs_init():
-    """worker initialiser: replace readers, filters and writers of the *imported* ttconv by recorders"""
-    import logging, io
+    """worker initialiser: replace readers, filters and writers of the *imported* ttconv by recorders that log, in
+    order, every effect of tt.convert that is visible outside it (and raise at the stage call chosen for injection)"""
+    import logging, io, types, builtins
     logging.disable(logging.CRITICAL)
     sys.path.insert(0, C.SRC)
     import ttconv.tt as tt, ttconv.model as model
     from ttconv.filters.doc.lcd import LCDDocFilter
     global REC
-    REC = {}
+    REC = {"events": [], "calls": 0, "inject": -1}
+
+    def stage():
+        """a reader, filter or writer is being called: the inject-th call raises"""
+        n = REC["calls"]; REC["calls"] = n + 1
+        if n == REC["inject"]: raise Injected("injected")
+
     class Doc(model.ContentDocument):
         def set_lang(self, language):
-            super().set_lang(language); REC["lang"] = language
+            super().set_lang(language); REC["events"].append(("lang", language))
+
     def reader(kind, has_cfg):
         def f(*a, **k):
-            REC["reader"] = (kind, a[1] if has_cfg else None); return Doc()
+            cfg = a[1] if has_cfg else None
+            path = REC.pop("path", None)
+            if path is None and a and hasattr(a[0], "name"): path = a[0].name
+            REC["events"].append(("read", kind, cfg, path)); stage(); return Doc()
         return f
-    tt.imsc_reader.to_model = reader("ttml", False)
+
+    # TTML: et.parse(inputfile) and imsc_reader.to_model together are the reader
+    def et_parse(path, *a, **k):
+        REC["events"].append(("read", "ttml", None, path)); stage(); return None
+    tt.et = types.SimpleNamespace(parse=et_parse)
+    tt.imsc_reader.to_model = lambda *a, **k: Doc()
+    # SCC: Path(inputfile).read_text() happens before the configuration is read; remember the path for the reader call
+    class PathStub:
+        def __init__(self, p): self.p = p
+        def read_text(self, *a, **k):
+            REC["path"] = self.p
+            with builtins.open(self.p) as f: return f.read()
+    tt.Path = PathStub
     tt.scc_reader.to_model = reader("scc", True)
     tt.stl_reader.to_model = reader("stl", True)
     tt.srt_reader.to_model = reader("srt", False)
     tt.vtt_reader.to_model = reader("vtt", False)
-    LCDDocFilter.process = lambda self, doc: REC["filters"].append(self.config)
+
+    def process(self, doc):
+        REC["events"].append(("filter", self.config)); stage()
+    LCDDocFilter.process = process
+
     class Tree:
-        def write(self, *a, **k): pass
+        def write(self, path, *a, **k): REC["events"].append(("output", path))
     def w_ttml(m, cfg, cb=None):
-        REC["writer"] = ("ttml", cfg); return Tree()
+        REC["events"].append(("write", "ttml", cfg)); stage(); return Tree()
     def w_srt(m, cfg, cb=None):
-        REC["writer"] = ("srt", cfg); return ""
+        REC["events"].append(("write", "srt", cfg)); stage(); return ""
     def w_vtt(m, cfg, cb=None):
-        REC["writer"] = ("vtt", cfg); return ""
+        REC["events"].append(("write", "vtt", cfg)); stage(); return ""
     tt.imsc_writer.from_model = w_ttml; tt.srt_writer.from_model = w_srt; tt.vtt_writer.from_model = w_vtt
+
+    # open(outputfile, "w"): the output file is opened for writing; every other open is the real one
+    class Sink:
+        def __enter__(self): return self
+        def __exit__(self, *a): return False
+        def write(self, *a): pass
+    def tt_open(path, mode="r", *a, **k):
+        if "w" in mode or "a" in mode or "x" in mode or "+" in mode:
+            REC["events"].append(("output", path)); return Sink()
+        return builtins.open(path, mode, *a, **k)
+    tt.open = tt_open
+
     orig = tt.LOGGER.setLevel
     def set_level(lvl):
-        orig(lvl); REC["level"] = int(tt.LOGGER.level)
+        orig(lvl); REC["events"].append(("level", int(tt.LOGGER.level)))
     tt.LOGGER.setLevel = set_level
-
-
-class _Unset: pass
+    class Progress:
+        def __setattr__(self, name, value):
+            if name != "display_progress_bar": raise AttributeError(name)
+            REC["events"].append(("progress", value))
+    tt.progress = Progress()
 
 
 def observe(job):
-    """run the real tt.main on argv (cwd = the case's observation directory) and return the observed outcome"""
-    d, argv, raw_cfg = job
+    """run the real tt.main on argv (cwd = the case's observation directory) with the inject-th stage call raising
+    (-1: none) and return the observed log and end"""
+    d, argv, raw_cfg, inject = job
     import ttconv.tt as tt, io, contextlib
     os.chdir(d)
-    REC.clear(); REC["filters"] = []
-    unset = _Unset()
-    tt.progress.display_progress_bar = unset
+    REC["events"] = []; REC["calls"] = 0; REC["inject"] = inject; REC.pop("path", None)
+    end = None
     try:
         with contextlib.redirect_stdout(io.StringIO()), contextlib.redirect_stderr(io.StringIO()):
             tt.main(list(argv))
     except SystemExit as e:
-        if e.code == 2: return dict(kind="error", exn="EExitUsage")
-        if isinstance(e.code, str) and "is not supported" in e.code: return dict(kind="error", exn="EExitUnsupported")
-        return dict(kind="error", exn=f"other:SystemExit({e.code!r})")
+        if e.code == 0: end = dict(kind="help")
+        elif e.code == 2: end = dict(kind="error", exn="EExitUsage")
+        elif isinstance(e.code, str) and "is not supported" in e.code: end = dict(kind="error", exn="EExitUnsupported")
+        else: end = dict(kind="error", exn=f"other:SystemExit({e.code!r})")
+    except Injected:
+        end = dict(kind="error", exn="(EStage 1)")
     except Exception as e:
-        return dict(kind="error", exn=G.EXN.get(type(e).__name__, "other:" + type(e).__name__))
-    if not argv: return dict(kind="help")
-    if "reader" not in REC or "writer" not in REC: return dict(kind="error", exn="other:no reader/writer call recorded")
-    pb = tt.progress.display_progress_bar
+        end = dict(kind="error", exn=G.EXN.get(type(e).__name__, "other:" + type(e).__name__))
+    evs = list(REC["events"])
+    if end is None:
+        outs = [e for e in evs if e[0] == "output"]
+        if not argv or not evs: end = dict(kind="help")
+        elif len(outs) != 1 or evs[-1][0] != "output": end = dict(kind="error", exn="other:run ended without a single final output event")
+        else: end = dict(kind="done", path=outs[0][1])
     try:
-        return dict(kind="plan", reader=[REC["reader"][0], cfg_plain(REC["reader"][0] + "_r", REC["reader"][1], raw_cfg)], lang=REC.get("lang"),
-                    filters=[cfg_plain("lcd", f, raw_cfg) for f in REC["filters"]],
-                    writer=[REC["writer"][0], cfg_plain(REC["writer"][0] + "_w", REC["writer"][1], raw_cfg)],
-                    level=REC.get("level"), progress=None if pb is unset else bool(pb))
+        end["events"] = [event_plain(e, raw_cfg) for e in evs]
     except G.GenError as e:
-        return dict(kind="error", exn="other:canonicaliser:" + str(e))
+        end = dict(kind="error", exn="other:canonicaliser:" + str(e), events=[])
+    return end
+
+
+def event_plain(e, raw_cfg):
+    """recorded event -> plain JSON-able list (configuration objects through cfg_plain, fail-closed)"""
+    k = e[0]
+    if k == "progress":
+        if e[1] is not True and e[1] is not False: raise G.GenError(f"progress flag {e[1]!r}")
+        return ["progress", e[1]]
+    if k == "level": return ["level", e[1]]
+    if k == "read":
+        if not isinstance(e[3], str): raise G.GenError(f"reader path {e[3]!r}")
+        return ["read", e[1], cfg_plain(e[1] + "_r", e[2], raw_cfg), e[3]]
+    if k == "lang":
+        if not isinstance(e[1], str): raise G.GenError(f"language {e[1]!r}")
+        return ["lang", e[1]]
+    if k == "filter": return ["filter", cfg_plain("lcd", e[1], raw_cfg)]
+    if k == "write": return ["write", e[1], cfg_plain(e[1] + "_w", e[2], raw_cfg)]
+    if k == "output":
+        if not isinstance(e[1], str): raise G.GenError(f"output path {e[1]!r}")
+        return ["output", e[1]]
+    raise G.GenError(f"event {e!r}")
+
+
+def plan_of(events):
+    """the plan a complete log shows (for the library run)"""
+    p = dict(lang=None, filters=[])
+    for e in events:
+        if e[0] == "read": p["reader"] = [e[1], e[2]]
+        elif e[0] == "lang": p["lang"] = e[1]
+        elif e[0] == "filter": p["filters"].append(e[1])
+        elif e[0] == "write": p["writer"] = [e[1], e[2]]
+    return p
 
 
 def cfg_plain(kind, c, raw_cfg):
     """configuration object -> plain JSON-able dict (fail-closed via the gen_c19 printers' checks)"""
     if c is None: return None
     from fractions import Fraction
+    if kind in ("ttml_r", "srt_r", "vtt_r"): raise G.GenError(f"{kind} called with a configuration")
     if kind == "scc_r":
         G.align_lit(c.text_align); return dict(text_align=c.text_align.name)
     if kind == "stl_r":
@@ -437,54 +627,89 @@ def cfg_plain(kind, c, raw_cfg):
     raise G.GenError(f"configuration object for {kind}: {c!r}")
 
 
-# ---------------------------------------------------------------------------------------------- Gallina literals of a plan
-def plan_lit(o):
+# ---------------------------------------------------------------------------------------------- Gallina literals of a run
+TF = {"frames": "TfFrames", "clock_time": "TfClockTime", "clock_time_with_frames": "TfClockTimeWithFrames"}
+
+
+def reader_lit(rk, rc):
     b = C.boolean
-    if o["kind"] == "help": return "OHelp"
-    if o["kind"] == "error": return f"(OError {o['exn']})"
-    rk, rc = o["reader"]
-    if rk == "scc": rd = "(RdScc %s)" % G.opt(rc, lambda c: "Al" + c["text_align"].capitalize())
-    elif rk == "stl":
-        rd = "(RdStl %s)" % G.opt(rc, lambda c: "(Build_stl_cfg %s %s %s %s %s)" % (
+    if rk == "scc": return "(RdScc %s)" % G.opt(rc, lambda c: "Al" + c["text_align"].capitalize())
+    if rk == "stl":
+        return "(RdStl %s)" % G.opt(rc, lambda c: "(Build_stl_cfg %s %s %s %s %s)" % (
             b(c["disable_fill_line_gap"]), G.opt(c["program_start_tc"], G.txt), b(c["disable_line_padding"]), G.opt(c["font_stack"], G.txt),
             G.opt(c["max_row_count"], G.mrc_lit)))
-    else: rd = {"ttml": "RdTtml", "srt": "RdSrt", "vtt": "RdVtt"}[rk]
-    wk, wc = o["writer"]
-    tf = {"frames": "TfFrames", "clock_time": "TfClockTime", "clock_time_with_frames": "TfClockTimeWithFrames"}
+    return {"ttml": "RdTtml", "srt": "RdSrt", "vtt": "RdVtt"}[rk]
+
+
+def writer_lit(wk, wc):
+    b = C.boolean
     if wk == "ttml":
-        wr = "(WrTtml %s)" % G.opt(wc, lambda c: "(Build_imsc_cfg %s %s)" % (G.opt(c["time_format"], lambda t: tf[t]), G.opt(c["fps"], lambda f: f"({C.z(f[0])}, {C.z(f[1])})")))
-    elif wk == "srt": wr = "(WrSrt %s)" % G.opt(wc, lambda c: b(c["text_formatting"]))
-    else: wr = "(WrVtt %s)" % G.opt(wc, lambda c: "(Build_vtt_cfg %s %s %s)" % (b(c["line_position"]), b(c["text_align"]), b(c["cue_id"])))
+        return "(WrTtml %s)" % G.opt(wc, lambda c: "(Build_imsc_cfg %s %s)" % (G.opt(c["time_format"], lambda t: TF[t]), G.opt(c["fps"], lambda f: f"({C.z(f[0])}, {C.z(f[1])})")))
+    if wk == "srt": return "(WrSrt %s)" % G.opt(wc, lambda c: b(c["text_formatting"]))
+    return "(WrVtt %s)" % G.opt(wc, lambda c: "(Build_vtt_cfg %s %s %s)" % (b(c["line_position"]), b(c["text_align"]), b(c["cue_id"])))
+
+
+def filter_lit(f):
     col = lambda x: "(" + ", ".join(C.z(v) for v in x) + ")"
-    fl = "[" + "; ".join("FLcd (Build_lcd_cfg %s %s %s %s)" % (C.z(f["safe_area"]), b(f["preserve_text_align"]), G.opt(f["color"], col), G.opt(f["bg_color"], col))
-                         for f in o["filters"]) + "]"
-    return "(OPlan (Build_plan_t %s %s %s %s %s %s))" % (rd, G.opt(o["lang"], G.txt), fl, wr, G.opt(o["level"], C.z), G.opt(o["progress"], b))
+    return "(FLcd (Build_lcd_cfg %s %s %s %s))" % (C.z(f["safe_area"]), C.boolean(f["preserve_text_align"]), G.opt(f["color"], col), G.opt(f["bg_color"], col))
 
 
-def src_lits(c):
-    """(inline_src literal, file_src literal, effective raw configuration or None)"""
+def event_lit(e):
+    k = e[0]
+    if k == "progress": return f"EvProgress {C.boolean(e[1])}"
+    if k == "level": return f"EvLevel {C.z(e[1])}"
+    if k == "read": return f"EvRead {reader_lit(e[1], e[2])} {G.txt(e[3])}"
+    if k == "lang": return f"EvLang {G.txt(e[1])}"
+    if k == "filter": return f"EvFilter {filter_lit(e[1])}"
+    if k == "write": return f"EvWrite {writer_lit(e[1], e[2])}"
+    if k == "output": return f"EvOutput {G.txt(e[1])}"
+    raise G.GenError(f"event {e!r}")
+
+
+def run_lits(o):
+    """(log literal, end literal) of an observed run"""
+    ev = "[" + "; ".join(event_lit(e) for e in o["events"]) + "]"
+    if o["kind"] == "help": return ev, "FHelp"
+    if o["kind"] == "error": return ev, f"(FError {o['exn']})"
+    return ev, f"(FDone {G.txt(o['path'])} tt)"
+
+
+def env_lits(c):
+    """what json.loads makes of each --config string of the command line and what reading each --config_file path gives:
+    (jenv literal, fenv literal, effective raw configuration or None, all raw configurations the code may have used)"""
     def parse(t):
         try: return ("ok", json.loads(t))
         except ValueError: return ("bad", None)
-    inl, raw, raws = "IAbsent", None, []
+    jrows = []; raws = []; raw = None
+    for t in c["configs"]:                                   # every --config string, the effective one last
+        k, v = parse(t)
+        jrows.append(f"({G.txt(t)}, {'Some ' + G.jlit(v) if k == 'ok' else 'None'})")
+        if k == "ok": raws.append(v)
     if c["inline"] is not None:
         k, v = parse(c["inline"])
-        inl = f"(IGiven {G.jlit(v)})" if k == "ok" else "IMalformed"
-        if k == "ok": raw = v; raws.append(v)
-    fil = "FAbsent"
-    if c["file"] is not None:
-        if c["file"][0] == "missing": fil = "FUnreadable"
+        if k == "ok": raw = v
+    frows = []
+    for path, spec in c["cfgfiles"]:                         # every --config_file path
+        if spec[0] == "missing": lit = "FUnreadable"
         else:
-            k, v = parse(c["file"][1])
-            fil = f"(FGiven {G.jlit(v)})" if k == "ok" else "FMalformed"
-            if k == "ok": raw = v; raws.insert(0, v)
-    return inl, fil, raw, raws
+            k, v = parse(spec[1])
+            lit = f"(FGiven {G.jlit(v)})" if k == "ok" else "FMalformed"
+            if k == "ok": raws.insert(0, v)
+        frows.append(f"({G.txt(path)}, {lit})")
+    if c["file"] is not None and c["file"][0] == "text":
+        k, v = parse(c["file"][1])
+        if k == "ok": raw = v
+        elif c["inline"] is not None: pass
+    return "[" + "; ".join(jrows) + "]", "[" + "; ".join(frows) + "]", raw, raws
 
 
-def argv_lit(c):
-    if c["sub"] is None: return "NoSubcommand"
-    return "(Subcommand %s (Build_options %s %s %s %s %s))" % (G.txt(c["sub"]), G.txt(c["input"]), G.txt(c["output"]), G.opt(c["itype"], G.txt),
-                                                               G.opt(c["otype"], G.txt), "[" + "; ".join(G.txt(f) for f in c["filters"]) + "]")
+def inline_is_json(t):
+    try: json.loads(t); return True
+    except ValueError: return False
+
+
+def toks_lit(argv):
+    return "[" + "; ".join(G.txt(a) for a in argv) + "]"
 
 
 # ---------------------------------------------------------------------------------------------- the library pipeline
@@ -630,13 +855,20 @@ def main():
         pass
     run.hygiene()
     sys.path.insert(0, C.SRC)
-    changed, errors = gen_tables.generate({"CliUnicode", "CliTables"})
-    if errors:
+    changed, errors = gen_tables.generate({"CliUnicode", "CliTables", "CliShape"})
+    if any(e.startswith("CliUnicode") for e in errors):
         run.violation("table translator failed closed: " + "; ".join(errors), dict(kind="translator", errors=errors), False)
         return run.finish()
+    # a table or the shape of tt.convert could not be regenerated: the proofs cannot be re-checked (Tables.v), but the
+    # correspondence run does not depend on those tables and can still find a concrete failing command line
+    run.translator_errors = errors
+    if errors: run.log("translator failed closed:", errors)
     if changed: run.log("tables regenerated from source:", changed)
-    targets = ["Proofs/C19/Tables.vo", "Proofs/C19/Plan.vo", "Proofs/C19/Types.vo", "Proofs/C19/Accept.vo", "Model/CliCases.vo"]
+    targets = ["Proofs/C19/Tables.vo", "Proofs/C19/Plan.vo", "Proofs/C19/Types.vo", "Proofs/C19/Accept.vo", "Proofs/C19/AcceptFont.vo",
+               "Proofs/C19/AcceptColor.vo", "Proofs/C19/AcceptAll.vo", "Proofs/C19/Args.vo", "Proofs/C19/Pipeline.vo", "Proofs/C19/SpecPlan.vo",
+               "Proofs/C19/Order.vo", "Proofs/C19/Main.vo", "Model/CliCases.vo"]
     ok, log = run.build(targets, clean=(run.tier == "thorough"))
+    if not ok and errors: C.make(["Model/CliCases.vo"], 1500)
     proofs_ok = ok and run.theorems()
     if not ok: run.proof_log = log[-2500:]
     if proofs_ok and run.tier == "thorough":
@@ -658,6 +890,10 @@ def main():
     shutil.rmtree(root, ignore_errors=True); os.makedirs(root)
     try:
         return body(run, proofs_ok, root, n_cases, n_probes, n_paths, quick)
+    except Exception as e:                                   # never end without a verdict
+        import traceback
+        run.violation(f"the check itself failed: {type(e).__name__}: {e}", dict(kind="harness-crash", traceback=traceback.format_exc()[-3000:]), found_input=False)
+        return run.finish()
     finally:
         shutil.rmtree(root, ignore_errors=True)
         C.clean_cases("Cases_C19_")
@@ -669,66 +905,111 @@ def body(run, proofs_ok, root, n_cases, n_probes, n_paths, quick):
     docs = corpus(rng)
     cases = gen_cases(rng, n_cases, docs)
     for c in cases:
-        c["dir"] = materialise(c, root + "/cli"); c["odir"] = materialise(c, root + "/obs"); c["argv"] = argv_of(c)
-        c["inl"], c["fil"], c["raw"], c["raws"] = src_lits(c)
+        c["argv"] = raw_argv(rng, c)
+        c["dir"] = materialise(c, root + "/cli"); c["odir"] = materialise(c, root + "/obs")
+        c["jenv"], c["fenv"], c["raw"], c["raws"] = env_lits(c)
     run.log(f"{len(cases)} command lines generated")
 
     # ---- a. the real CLI, one fresh process per command line
     with ThreadPoolExecutor(C.NCPU) as ex:
         cli = list(ex.map(run_cli, [(c["dir"], c["argv"], 0, c["output"] if c["sub"] else None) for c in cases]))
     run.log("CLI runs done")
-    # ---- b. observed plans (real tt.main, recorders instead of readers/filters/writers)
+    # ---- b. observed runs (real tt.main, recorders instead of readers/filters/writers), then the same with one stage raising
     with ProcessPoolExecutor(C.NCPU, initializer=_obs_init) as ex:
-        obs = list(ex.map(observe, [(c["odir"], c["argv"], c["raws"]) for c in cases], chunksize=8))
+        obs = list(ex.map(observe, [(c["odir"], c["argv"], c["raws"], -1) for c in cases], chunksize=8))
+        inj_jobs = []
+        for i, (c, o) in enumerate(zip(cases, obs)):
+            stages = sum(1 for e in o.get("events", []) if e[0] in ("read", "filter", "write"))
+            if stages and (o["kind"] == "done" or rng.random() < .5):
+                for k in sorted(rng.sample(range(stages), min(stages, 1 if quick else 2))):
+                    inj_jobs.append((i, k))
+        if quick: inj_jobs = inj_jobs[:200]
+        inj = list(ex.map(observe, [(cases[i]["odir"], cases[i]["argv"], cases[i]["raws"], k) for i, k in inj_jobs], chunksize=8))
     # ---- c. the library pipeline on the observed plan
-    jobs = [(o, c["dir"] + "/" + c["input"]) for c, o in zip(cases, obs) if o["kind"] == "plan"]
+    jobs = [(plan_of(o["events"]), c["dir"] + "/" + c["input"]) for c, o in zip(cases, obs) if o["kind"] == "done"]
     with ProcessPoolExecutor(C.NCPU, initializer=_lib_init) as ex:
         libres = list(ex.map(exec_plan, jobs, chunksize=4))
     lib = {}; it = iter(libres)
     for i, o in enumerate(obs):
-        if o["kind"] == "plan": lib[i] = next(it)
-    run.log("observation and library runs done")
+        if o["kind"] == "done": lib[i] = next(it)
+    run.log(f"observation ({len(obs)} + {len(inj)} with a failing stage) and library runs done")
 
     harness_bad = []; py_viol = []
     for i, (c, o, (rc, cls, data, err)) in enumerate(zip(cases, obs, cli)):
         c["rc"], c["cls"], c["out"], c["err"] = rc, cls, data, err
         if o["kind"] == "error" and o["exn"].startswith("other:"): harness_bad.append((i, "observation: " + o["exn"]))
         if rc == -9: harness_bad.append((i, "CLI timeout"))
-        if cls is not None and cls.startswith("other:") and o["kind"] == "error": harness_bad.append((i, f"stderr class {cls}"))
+        if cls is not None and cls.startswith("other:") and o["kind"] == "error" and not (c.get("bad_input") and rc != 0):
+            harness_bad.append((i, f"stderr class {cls}"))
         # the recorder run and the real process must fail in the same way
-        if o["kind"] == "error" and not o["exn"].startswith("other:") and cls != o["exn"]:
+        # (a malformed input document makes the real reader fail first, whatever the configuration: then only the status
+        # and the absence of an output file are compared)
+        if o["kind"] == "error" and not o["exn"].startswith("other:") and cls != o["exn"] and not (c.get("bad_input") and rc != 0):
             py_viol.append((i, f"real process ended with {cls} (rc {rc}) but the instrumented run with {o['exn']}"))
-        if o["kind"] == "plan":
+        if o["kind"] == "help" and rc != 0:
+            py_viol.append((i, f"real process ended with status {rc} but the instrumented run printed the help text"))
+        # an overridden -o value must not come into being
+        for dest, v in c.get("decoys", []):
+            if dest == "output" and v != c["output"] and os.path.exists(c["dir"] + "/" + v):
+                py_viol.append((i, f"the overridden output path {v} was written"))
+        if o["kind"] == "done":
             k, v = lib[i]
             c["cmp"] = 0 if k == "raise" else (1 if data is not None and data == v else 2)
             c["lib"] = (k, v if k == "raise" else len(v))
         else:
             c["cmp"] = 0
+    for (i, k), o in zip(inj_jobs, inj):
+        if o["kind"] == "error" and o["exn"].startswith("other:"): harness_bad.append((i, f"observation with stage {k} failing: " + o["exn"]))
 
-    # ---- d. Coq: M's plan = observed plan; S on what the code did
+    # ---- d. Coq: M's run = observed run (log and end); S on what the code did
     C.clean_cases("Cases_C19_")
+    hdr = "From TT Require Import Base.Prelude Base.CliTypes Gen.CliUnicode Model.Cli Spec.CliSpec Model.CliCases.\n"
+    files = []
     shards = []; cur = []; size = 0
     for i, (c, o) in enumerate(zip(cases, obs)):
         if o["kind"] == "error" and o["exn"].startswith("other:"): continue
-        lit = f"({argv_lit(c)}, {c['inl']}, {c['fil']}, {plan_lit(o)}, {C.z(c['rc'])}, {C.boolean(c['out'] is not None)}, {c['cmp']})"
+        ev, fin = run_lits(o)
+        lit = f"({toks_lit(c['argv'])}, {c['jenv']}, {c['fenv']}, {ev}, {fin}, {C.z(c['rc'])}, {C.boolean(c['out'] is not None)}, {c['cmp']})"
         cur.append((i, lit)); size += len(lit)
         if size > 150000: shards.append(cur); cur = []; size = 0
     if cur: shards.append(cur)
-    hdr = "From TT Require Import Base.Prelude Base.CliTypes Gen.CliUnicode Model.Cli Spec.CliSpec Model.CliCases.\n"
-    files = []
     for k, sh in enumerate(shards):
         p = f"{C.GEN}/Cases_C19_cli_{k}.v"
         open(p, "w").write(hdr + "Definition cs : list cli_case := [\n" + ";\n".join(l for _, l in sh) + "].\n"
                            "Eval vm_compute in check_all (cases_model cs).\nEval vm_compute in (7777, cases_spec cs).\n")
         files.append(("cli", p, [i for i, _ in sh]))
+    shards = []; cur = []; size = 0
+    for n, ((i, k), o) in enumerate(zip(inj_jobs, inj)):
+        if o["kind"] == "error" and o["exn"].startswith("other:"): continue
+        c = cases[i]; ev, fin = run_lits(o)
+        lit = f"({toks_lit(c['argv'])}, {c['jenv']}, {c['fenv']}, {k}, {ev}, {fin})"
+        cur.append((n, lit)); size += len(lit)
+        if size > 150000: shards.append(cur); cur = []; size = 0
+    if cur: shards.append(cur)
+    for k, sh in enumerate(shards):
+        p = f"{C.GEN}/Cases_C19_inj_{k}.v"
+        open(p, "w").write(hdr + "Definition cs : list inj_case := [\n" + ";\n".join(l for _, l in sh) + "].\n"
+                           "Eval vm_compute in check_all (injs_model cs).\nEval vm_compute in check_all (injs_spec cs).\n")
+        files.append(("inj", p, [n for n, _ in sh]))
 
     # ---- decoder probes and paths (in-process: the code's own functions)
     logging.disable(logging.CRITICAL)
     import ttconv.tt as tt
     probes = gen_probes(rng, n_probes); prow = []
+    # always present: documented values beyond CPython's int() digit limit (what is left of finding documented-values-rejected)
+    probes += [("imsc_writer", "fps", "KFps", "0" * 4299 + "25/1"), ("lcd", "color", "KColor", "rgb(" + "0" * 4300 + "1,2,3)"),
+               ("imsc_writer", "fps", "KFps", "0" * 4290 + "25/1")]
+    kept = []
     for sec, field, K, v in probes:
-        kind, r = G.decode_key(sec, field, v)
+        try:
+            kind, r = G.decode_key(sec, field, v)
+        except G.GenError as e:
+            # the code accepted v and produced a value of a shape no documented value has (e.g. an int for a true | false key)
+            py_viol.append((None, f"configuration key {sec}.{field}: the code accepts {v!r} and decodes it to a value outside the documented kinds ({e})"))
+            continue
+        kept.append((sec, field, K, v))
         prow.append(f"({K}, {G.jlit(v)}, {'POk ' + r if kind == 'ok' else 'PRaise ' + r})")
+    probes = kept
     paths = gen_paths(rng, n_paths); trow = []
     tcode = {tt.FileTypes.TTML: 0, tt.FileTypes.SCC: 1, tt.FileTypes.SRT: 2, tt.FileTypes.STL: 3, tt.FileTypes.VTT: 4}
     for g, p in paths:
@@ -750,7 +1031,8 @@ def body(run, proofs_ok, root, n_cases, n_probes, n_paths, quick):
                            "Eval vm_compute in check_all (types_model ts).\nEval vm_compute in check_all (types_spec ts).\n")
         files.append(("type", p, list(range(k, min(k + per, len(trow))))))
     res = C.coqc_many([p for _, p, _ in files], 1500)
-    m_bad = {"cli": [], "probe": [], "type": []}; s_bad = {"cli": [], "probe": [], "type": []}; excused = {"cli": {}, "probe": {}}
+    m_bad = {"cli": [], "probe": [], "type": [], "inj": []}; s_bad = {"cli": [], "probe": [], "type": [], "inj": []}; excused = {"cli": {}, "probe": {}}
+    unmeant = {"cli": [], "probe": []}
     broken = []
     for kind, p, idxs in files:
         rcq, out = res[p]; flat = " ".join(out.split())
@@ -758,7 +1040,7 @@ def body(run, proofs_ok, root, n_cases, n_probes, n_paths, quick):
         if rcq != 0 or not first: broken.append((p, out[-300:])); continue
         if int(first.group(1)) != len(idxs): broken.append((p, "case count")); continue
         m_bad[kind] += [idxs[int(x)] for x in re.findall(r"\d+", first.group(2))]
-        if kind == "type":
+        if kind in ("type", "inj"):
             second = re.findall(r"=\s*\(\s*(\d+)\s*,\s*(\[[^\]]*\]|nil)\s*\)\s*:\s*Z \* list Z", flat)
             if len(second) != 2: broken.append((p, "second result")); continue
             s_bad[kind] += [idxs[int(x)] for x in re.findall(r"\d+", second[1][1])]
@@ -769,14 +1051,16 @@ def body(run, proofs_ok, root, n_cases, n_probes, n_paths, quick):
             if len(codes) != len(idxs): broken.append((p, "class count")); continue
             for i, cde in zip(idxs, codes):
                 if cde == 9: s_bad[kind].append(i)
+                elif cde == 8: unmeant[kind].append(i)
                 elif cde != 0: excused[kind][i] = cde
     C.clean_cases("Cases_C19_")
-    run.log(f"Coq: command lines M/code mismatches {len(m_bad['cli'])}, S failures {len(s_bad['cli'])}, excused by findings {len(excused['cli'])}; "
-            f"probes mismatches {len(m_bad['probe'])}, S failures {len(s_bad['probe'])}, excused {len(excused['probe'])}; "
+    run.log(f"Coq: command lines M/code mismatches {len(m_bad['cli'])}, S failures {len(s_bad['cli'])}, not the prescribed plan {len(unmeant['cli'])}, excused by findings {len(excused['cli'])}; "
+            f"runs with a failing stage: mismatches {len(m_bad['inj'])}, S failures {len(s_bad['inj'])}; "
+            f"probes mismatches {len(m_bad['probe'])}, S failures {len(s_bad['probe'])}, not the documented meaning {len(unmeant['probe'])}, excused {len(excused['probe'])}; "
             f"paths mismatches {len(m_bad['type'])}, S failures {len(s_bad['type'])}; broken files {len(broken)}")
 
     # ---- determinism: other hash seeds, progress/log toggles, histories within one interpreter
-    good = [i for i, c in enumerate(cases) if c["sub"] == "convert" and c["rc"] == 0 and c["out"] is not None]
+    good = [i for i, c in enumerate(cases) if c["sub"] == "convert" and c["odd"] is None and c["rc"] == 0 and c["out"] is not None]
     rng.shuffle(good)
     det = good[:(60 if quick else 600)]
     dmeta = []
@@ -812,7 +1096,7 @@ def body(run, proofs_ok, root, n_cases, n_probes, n_paths, quick):
     # precedence at the level of bytes: with a configuration file, dropping a (well-formed) --config changes nothing
     pjobs = []; pmeta = []
     for i, c in enumerate(cases):
-        if c["sub"] == "convert" and c["file"] is not None and c["inline"] is not None and c["inl"].startswith("(IGiven"):
+        if c["sub"] == "convert" and c["odd"] is None and c["file"] is not None and c["inline"] is not None and inline_is_json(c["inline"]):
             c2 = dict(c); c2["inline"] = None; c2["output"] = os.path.dirname(c["output"]) + "/p-" + os.path.basename(c["output"])
             pjobs.append((c["dir"], argv_of(c2), 0, c2["output"])); pmeta.append(i)
     if not quick: pjobs, pmeta = pjobs[:600], pmeta[:600]
@@ -827,7 +1111,7 @@ def body(run, proofs_ok, root, n_cases, n_probes, n_paths, quick):
     # histories: k conversions (some failing) in random order inside one interpreter, outputs vs the fresh-process bytes
     n_hist = 8 if quick else 80
     hjobs = []; hmeta = []
-    pool = [i for i, c in enumerate(cases) if c["sub"] == "convert"]
+    pool = [i for i, c in enumerate(cases) if c["sub"] == "convert" and c["odd"] is None]
     for k in range(n_hist):
         seq = [rng.choice(pool) for _ in range(rng.randrange(4, 9 if quick else 14))]
         js = []
@@ -864,7 +1148,21 @@ def body(run, proofs_ok, root, n_cases, n_probes, n_paths, quick):
                       f"output file {'present' if cases[i]['out'] is not None else 'absent'}, library comparison {cases[i]['cmp']}", replay(i))
     for i, why in py_viol[:5]:
         s_found = True
-        run.violation(why, replay(i))
+        run.violation(why, replay(i) if i is not None else dict(kind="S-on-code", what=why))
+    for i in unmeant["cli"][:5]:
+        s_found = True
+        run.violation(f"`tt` does not follow the plan README prescribes on command line {cases[i]['argv']} although every consulted configuration value is "
+                      f"documented: observed {obs[i]}", replay(i))
+    for i in unmeant["probe"][:5]:
+        s_found = True
+        sec, field, K, v = probes[i]
+        run.violation(f"configuration key {sec}.{field}: the documented value {v!r} is accepted but not decoded to its documented meaning",
+                      dict(kind="S-on-code", section=sec, key=field, value=repr(v), code=G.decode_key(sec, field, v)))
+    for n in s_bad["inj"][:5]:
+        s_found = True
+        i, k = inj_jobs[n]
+        run.violation(f"with stage call {k} raising, command line {cases[i]['argv']} ended {inj[n]['kind']} with log {inj[n]['events']}: an output file on an error path, "
+                      f"or effects out of order", dict(kind="no-output-on-error", argv=cases[i]["argv"], failing_stage_call=k, observed=inj[n]))
     for i in s_bad["probe"][:5]:
         s_found = True
         sec, field, K, v = probes[i]
@@ -887,7 +1185,7 @@ def body(run, proofs_ok, root, n_cases, n_probes, n_paths, quick):
     fired = {}
     for kind in ("cli", "probe"):
         for i, cde in excused[kind].items():
-            mask = cde - 100 if kind == "cli" else {1: 1, 2: 2, 3: 4}.get(cde, 0)
+            mask = cde - 100 if kind == "cli" else {2: 2, 3: 4}.get(cde, 0)
             for bit, fid in FINDINGS.items():
                 if mask & bit: fired.setdefault(fid, []).append((kind, i))
             if kind == "cli" and mask == 0:
@@ -909,11 +1207,15 @@ def body(run, proofs_ok, root, n_cases, n_probes, n_paths, quick):
     if harness_bad:
         run.violation(f"harness could not classify {len(harness_bad)} runs, first: {harness_bad[0]}",
                       dict(kind="harness", items=[(i, w, cases[i]["argv"]) for i, w in harness_bad[:10]]), found_input=False)
-    ties_bad = m_bad["cli"] or m_bad["probe"] or m_bad["type"] or broken or not proofs_ok
+    ties_bad = m_bad["cli"] or m_bad["inj"] or m_bad["probe"] or m_bad["type"] or broken or not proofs_ok
     if ties_bad and not s_found:
         what = []
+        if getattr(run, "translator_errors", None): what.append("table translator failed closed (the code no longer has the shape the model transcribes): " + "; ".join(run.translator_errors))
         if not proofs_ok: what.append("theorems of coq/Properties/C19.v (or Proofs/C19/Tables.v against the regenerated tables) no longer check: " + getattr(run, "proof_log", "")[-600:])
-        if m_bad["cli"]: what.append(f"Model/Cli.v plan differs from the observed plan on {len(m_bad['cli'])} command lines, first {cases[m_bad['cli'][0]]['argv']} observed {obs[m_bad['cli'][0]]}")
+        if m_bad["cli"]: what.append(f"Model/Cli.v run_tokens differs from the observed run (log or end) on {len(m_bad['cli'])} command lines, first {cases[m_bad['cli'][0]]['argv']} observed {obs[m_bad['cli'][0]]}")
+        if m_bad["inj"]:
+            i0, k0 = inj_jobs[m_bad["inj"][0]]
+            what.append(f"Model/Cli.v run_tokens differs from the observed run when stage call {k0} raises, on {len(m_bad['inj'])} runs, first {cases[i0]['argv']} observed {inj[m_bad['inj'][0]]}")
         if m_bad["probe"]: what.append(f"Model/Cli.v decoders differ from the code on {len(m_bad['probe'])} probes, first {probes[m_bad['probe'][0]][:2]} {probes[m_bad['probe'][0]][3]!r}")
         if m_bad["type"]: what.append(f"splitext/get_file_type differ on {len(m_bad['type'])} paths, first {paths[m_bad['type'][0]]}")
         if broken: what.append(f"case files did not evaluate: {broken[0]}")
@@ -926,21 +1228,41 @@ def body(run, proofs_ok, root, n_cases, n_probes, n_paths, quick):
     for c, o in zip(cases, obs):
         k = o["kind"] if o["kind"] != "error" else "error:" + o["exn"]
         kinds[k] = kinds.get(k, 0) + 1
-    pairs = {}
-    for c, o in zip(cases, obs):
-        if o["kind"] == "plan": pairs[f"{o['reader'][0]}->{o['writer'][0]}"] = pairs.get(f"{o['reader'][0]}->{o['writer'][0]}", 0) + 1
-    distinct = len({(json.dumps(o, sort_keys=True, default=str), c["doc"]) for c, o in zip(cases, obs) if o["kind"] == "plan" and c["cmp"] == 1})
-    run.cov["obligations"] += 4; run.cov["discharged"] += 4 - bool(m_bad["cli"] or s_bad["cli"]) - bool(m_bad["probe"] or s_bad["probe"]) - bool(m_bad["type"] or s_bad["type"]) - bool(det_bad or hist_bad or prec_bad)
+    pairs = {}; plans = {}
+    for i, (c, o) in enumerate(zip(cases, obs)):
+        if o["kind"] == "done":
+            pl = plan_of(o["events"]); plans[i] = pl
+            pairs[f"{pl['reader'][0]}->{pl['writer'][0]}"] = pairs.get(f"{pl['reader'][0]}->{pl['writer'][0]}", 0) + 1
+    distinct = len({(json.dumps(plans[i], sort_keys=True, default=str), cases[i]["doc"]) for i in plans if cases[i]["cmp"] == 1})
+    odd_names = {0: "-i missing", 1: "-o missing", 2: "flag without value", 3: "stray word", 4: "unknown flag", 5: "-h/--help", 6: "flag followed by flag",
+                 7: "--help=1", 8: "value of -i without its flag"}
+    odd = {}
+    for c in cases:
+        if c.get("odd") is not None: odd[odd_names[c["odd"]]] = odd.get(odd_names[c["odd"]], 0) + 1
+    forms = dict(eq_form=sum(1 for c in cases for t in c["argv"][1:] if t.startswith("-") and "=" in t),
+                 short_flags=sum(1 for c in cases for t in c["argv"][1:] if t in ("-i", "-o") or t.startswith(("-i=", "-o="))),
+                 repeated_options=sum(len(c.get("decoys", [])) for c in cases), command_lines_with_repeated_options=sum(1 for c in cases if c.get("decoys")),
+                 mixed_case_types=sum(1 for c in cases for t in (c["itype"], c["otype"]) if t and t != t.lower() and t != t.upper()),
+                 unknown_filters=sum(1 for c in cases for f in c["filters"] if f != "lcd"), repeated_filters=sum(1 for c in cases if c["filters"].count("lcd") > 1))
+    run.cov["obligations"] += 5
+    run.cov["discharged"] += 5 - bool(m_bad["cli"] or s_bad["cli"] or unmeant["cli"]) - bool(m_bad["inj"] or s_bad["inj"]) - bool(m_bad["probe"] or s_bad["probe"] or unmeant["probe"]) \
+        - bool(m_bad["type"] or s_bad["type"]) - bool(det_bad or hist_bad or prec_bad)
     run.cov.update(
-        evaluations=len(cases) * 4 + len(probes) * 2 + len(paths) * 2 + len(djobs) + hist_n + len(pjobs),
+        evaluations=len(cases) * 4 + len(inj) * 2 + len(probes) * 2 + len(paths) * 2 + len(djobs) + hist_n + len(pjobs),
         precedence_reruns=len(pjobs),
         distinct_nontrivial=distinct,
-        rule="command lines: each is run as a fresh process, observed through the instrumented tt.main, executed through the library API and "
-             "judged by M (plan equality) and S (spec_case) inside Coq; distinct_nontrivial = distinct (observed plan, input document) pairs "
+        rule="command lines (raw tokens): each is run as a fresh process, observed through the instrumented tt.main (ordered log of effects and end), "
+             "executed through the library API and judged by M (run_tokens = observed log and end) and S (spec_case, and spec_plan when every consulted "
+             "value is documented) inside Coq; a sample is observed again with one reader / filter / writer call raising; "
+             "distinct_nontrivial = distinct (observed plan, input document) pairs "
              "whose library output equals the CLI's output file byte for byte. Probes: (key, JSON value) through the code's own parse; "
              "paths: os.path.splitext + FileTypes.get_file_type. Determinism: re-runs under other hash seeds / progress+log settings and "
              "conversions inside shared interpreters after random histories, compared byte for byte with the fresh-process output.",
-        command_lines=len(cases), outcome_histogram=kinds, format_pairs=pairs,
+        command_lines=len(cases), outcome_histogram=kinds, format_pairs=pairs, outside_grammar=odd, token_forms=forms,
+        malformed_input_documents=sum(1 for c in cases if c.get("bad_input")), malformed_input_rejected_without_output=sum(1 for c in cases if c.get("bad_input") and c["rc"] != 0 and c["out"] is None),
+        runs_with_failing_stage=len(inj), failing_stage_outcomes={k: sum(1 for o in inj if (o["kind"] if o["kind"] != "error" else "error:" + o["exn"]) == k)
+                                                                   for k in {(o["kind"] if o["kind"] != "error" else "error:" + o["exn"]) for o in inj}},
+        plan_checked_against_spec_plan=sum(1 for i in range(len(cases)) if i not in excused["cli"] and i not in s_bad["cli"] and cases[i].get("odd") is None),
         bytes_equal=sum(1 for c in cases if c["cmp"] == 1 and c["out"] is not None), library_raised=sum(1 for i in lib if lib[i][0] == "raise"),
         with_inline=sum(1 for c in cases if c["inline"] is not None), with_file=sum(1 for c in cases if c["file"] is not None),
         with_both=sum(1 for c in cases if c["inline"] is not None and c["file"] is not None),
@@ -956,11 +1278,14 @@ def body(run, proofs_ok, root, n_cases, n_probes, n_paths, quick):
     run.assumptions += [
         "determinism and history independence are established by differential execution on the generated command lines, not by proof (M is pure by construction)",
         "byte equality with the library pipeline is differential: the observed plan (= M's plan, checked in Coq) is executed through the library API in the harness",
-        "argparse, file-system behaviour and process-global state (logging handlers, ElementTree namespace registry) are exercised, not modelled",
+        "argparse is transcribed for the token forms of the grammar (Model/Cli.v parse_opts) and tied by the regenerated declaration table and the generated command lines; "
+        "unique-prefix abbreviations, -ivalue, -- and dash-initial values in two-token form are outside the transcription and the generator",
+        "file-system behaviour and process-global state (logging handlers, ElementTree namespace registry) are exercised, not modelled; the input file is assumed readable "
+        "(for SCC the code reads it before the reader configuration, the model after)",
         "S (Spec/CliSpec.v) is my reading of README.md: null = not specified; RFC 5646 well-formedness and the TTML2 colour / font-families grammars are approximated as stated in its header",
         "recorded findings are read from findings_proposed/C19.txt until they are merged into KNOWN_FINDINGS.txt"]
     return run.finish(["harness/gen_c19.py (table translator + decoder probe runner, fail-closed)",
-                       "harness/c19.py recorders (monkey-patched readers/filters/writers in a worker process), plan canonicaliser and library executor",
+                       "harness/c19.py recorders (monkey-patched readers/filters/writers, tt.open, tt.et, tt.Path, tt.progress in a worker process), event canonicaliser and library executor",
                        "the running CPython for int()/str.lower()/re character classes (tables regenerated from it)"])
 
 
